@@ -936,17 +936,19 @@ void TasmanianSparseGrid::setSurplusRefinement(double tolerance, int output, con
     if (tolerance < 0.0) throw std::invalid_argument("ERROR: calling setSurplusRefinement() with invalid tolerance (must be non-negative)");
     if ((!level_limits.empty()) && (level_limits.size() != (size_t) dims)) throw std::invalid_argument("ERROR: setSurplusRefinement() requires level_limits with either 0 or dimenions entries");
 
+    // validate the grid type before the level limits are stored, a rejected call must not modify the grid
+    if (isGlobal()){
+        if (!OneDimensionalMeta::isSequence(get<GridGlobal>()->getRule()))
+            throw std::runtime_error("ERROR: setSurplusRefinement called for a Global grid with non-sequence rule");
+    }else if (!isSequence()){
+        throw std::runtime_error("ERROR: setSurplusRefinement(double, int) called for a grid that is neither Sequence nor Global with a sequence rule");
+    }
+
     if (!level_limits.empty()) llimits = level_limits;
     if (isSequence()){
         get<GridSequence>()->setSurplusRefinement(tolerance, output, llimits);
-    }else if (isGlobal()){
-        if (OneDimensionalMeta::isSequence(get<GridGlobal>()->getRule())){
-            get<GridGlobal>()->setSurplusRefinement(tolerance, output, llimits);
-        }else{
-            throw std::runtime_error("ERROR: setSurplusRefinement called for a Global grid with non-sequence rule");
-        }
     }else{
-        throw std::runtime_error("ERROR: setSurplusRefinement(double, int) called for a grid that is neither Sequence nor Global with a sequence rule");
+        get<GridGlobal>()->setSurplusRefinement(tolerance, output, llimits);
     }
 }
 
